@@ -246,7 +246,11 @@ class Func:
 
     @property
     def is_property(self) -> bool:
-        return "property" in self.decorators
+        return "property" in self.decorators or self.is_cached_property
+
+    @property
+    def is_cached_property(self) -> bool:
+        return any(d.split(".")[-1] == "cached_property" for d in self.decorators)
 
     @property
     def is_classmethod(self) -> bool:
